@@ -144,11 +144,7 @@ def r2_evidence(ctx):
             yield Ob('error_handler:%s.%s consults every evidence field' % (cname, d), not missing, ctx.loc(m, meths[d]),
                      '' if not missing else '%s stores errors in %s but %s ignores %s: an error recorded there leaves the '
                      'set/group "accepted" while the verdict is false' % (cname, sorted(stored), d, missing))
-    # err_handler.get_error_count sums its children
-    fn = ctx.func('error_handler', 'err_handler.get_error_count')
-    ok = any(isinstance(n, ast.For) and norm(n.iter) == 'self.children' for n in ast.walk(fn)) and 'get_error_count' in ast.unparse(fn)
-    require_idiom(ok, 'c05.py:144')
-    yield Ob('error_handler:err_handler.get_error_count sums every interchange', ok, ctx.floc(fn), '' if ok else 'root count changed')
+    # (err_handler.get_error_count = sum over every interchange: decided by constant propagation in R14)
 
 
 # --------------------------------------------------------------------------- R3
@@ -593,7 +589,9 @@ def r16_group_totals(ctx):
                     return 'write'
                 return None
             try:
-                res = traces(g, {'err_gs': gs}, key, funcs={'self.__get_gs_errors': lambda *_a: ('5',), 'self._error_997_visitor__get_gs_errors': lambda *_a: ('5',)})
+                env_ = {k_: v_ for k_, v_ in A.module_constants(ctx.mod(mod).tree).items() if isinstance(v_, (int, str, tuple))}
+                env_['err_gs'] = gs
+                res = traces(g, env_, key, funcs={'self.__get_gs_errors': lambda *_a: ('5',), 'self._error_997_visitor__get_gs_errors': lambda *_a: ('5',)})
             except NotClosedTest as e:
                 raise AnalysisError('%s.visit_gs_post cannot be decided: %s' % (cname, e))
             runs += 1
@@ -635,8 +633,10 @@ def r15_accept_iff_no_error(ctx):
     hfuncs = helper_oracles(ctx, 'error_handler')
     import itertools as _it
 
-    def kid(n, code='A'):
-        return A.Model('kid', get_error_count=lambda n=n: n, err_count=lambda n=n: n, ack_code=code)
+    def kid(n, code='A', stored=None):
+        # `ack_code` is what the node answers now; `_ack_code` what was stored when its loop was closed (an acceptance
+        # stored before the trailer's own errors arrived is stale)
+        return A.Model('kid', get_error_count=lambda n=n: n, err_count=lambda n=n: n, ack_code=code, _ack_code=stored if stored is not None else code)
 
     def run(cname, meth, env):
         fn = ctx.func('error_handler', '%s.%s' % (cname, meth))
@@ -654,13 +654,36 @@ def r15_accept_iff_no_error(ctx):
     yield Ob('error_handler:err_gs._get_ack_code accepts exactly when nothing was reported in or on the group', not bad,
              ctx.floc(ctx.func('error_handler', 'err_gs._get_ack_code')), '' if not bad else bad[0])
     bad = []
-    for codes in ((), ('A',), ('R',), ('A', 'R', 'E', 'R'), ('E',), ('M', 'W', 'X', 'A')):
-        env = {'self.children': tuple(kid(0, c) for c in codes)}
+    for codes in ((), ('A',), ('R',), ('A', 'R', 'E', 'R'), ('E',), ('M', 'W', 'X', 'A'), ('A', 'R/A'), ('R/A', 'R/A', 'E')):
+        env = {'self.children': tuple(kid(0, c.split('/')[0], c.split('/')[-1]) for c in codes)}
+        codes = tuple(c.split('/')[0] for c in codes)
         fn, got = run('err_gs', 'count_failed_st', env)
         want = sum(1 for c in codes if c not in ('A', 'E'))
         if got != want:
             bad.append('sets with codes %s: %r failed, expected %r' % (list(codes), got, want))
     yield Ob('error_handler:err_gs.count_failed_st counts the sets that are not accepted', not bad, ctx.floc(fn), '' if not bad else bad[0])
+    # the code a closed set / group answers: an acceptance stored at the close is re-evaluated (errors of the trailer
+    # itself arrive afterwards), anything else is what was stored
+    for cname, recount in (('err_st', 'err_count'), ('err_gs', '_get_ack_code')):
+        cls = ctx.cls('error_handler', cname)
+        getter = [f for f in cls.body if isinstance(f, ast.FunctionDef) and f.name == 'ack_code'
+                  and any(isinstance(d, ast.Name) and d.id == 'property' for d in f.decorator_list)]
+        if not getter:
+            raise AnalysisError('%s.ack_code is no longer a property: the rule does not know how the code is answered' % cname)
+        bad = []
+        for stored, late in _it.product(('A', 'R', 'E', 'M'), (0, 2)):
+            env = {'self._ack_code': stored}
+            fx = dict(hfuncs)
+            fx['self.err_count'] = lambda late=late: late
+            fx['self._get_ack_code'] = lambda late=late: 'R' if late else 'A'
+            try:
+                got = run_function(ctx.cfg(getter[0]), getter[0], [None], fx, env=env)
+            except (NotClosedTest, A.NotClosed) as e:
+                raise AnalysisError('%s.ack_code cannot be decided: %s' % (cname, e))
+            want = 'R' if (stored == 'A' and late) else stored
+            if got != want:
+                bad.append('stored %r, %s: answers %r, expected %r' % (stored, 'errors after the close' if late else 'no later errors', got, want))
+        yield Ob('error_handler:%s.ack_code re-evaluates a stored acceptance, keeps any other code' % cname, not bad, ctx.loc('error_handler', getter[0]), '' if not bad else bad[0])
     for cname in ('err_st', 'err_seg'):
         bad = []
         for child, eles, errs in _it.product((0, 2), ((), (0,), (3, 1)), (0, 2)):
